@@ -274,7 +274,11 @@ def case_lit(case, impl, det=(), hist=()):
     if 'exc' in impl:
         outc = '(OExc %s %s)' % (lit.s(impl['exc'][0]), lit.nat(impl['exc'][1]))
     else:
-        outc = '(ODone %s %s %s)' % (nx_lit(impl['pre']), lit.opt(impl.get('car'), nx_lit), nx_lit(impl['final_nx']))
+        # a sample() that returned without reaching the finalisation stages (no rebuild_h_atoms / sort call was seen):
+        # what WAS returned is recorded and judged; the missing snapshot is the empty graph (never equal to the model's)
+        pre = impl.get('pre')
+        outc = '(ODone %s %s %s)' % (nx_lit(pre if pre is not None else []), lit.opt(impl.get('car'), nx_lit),
+                                     nx_lit(impl['final_nx']))
     obs = lit.lst([lit.lst([lit.pair(lit.s(k), lit.lst([lit.z(x) for x in v])) for k, v in ob.items()])
                    for ob in impl.get('obs', [])])
     masses = case.get('masses')
@@ -315,7 +319,41 @@ def rand_weight(rng, pzero):
     return rng.choice([1, 2, 0.1, 0.25, 0.5, 0.8, 1.0, 3])
 
 
+def capped_case(rng):
+    """all-atom sets whose trajectories end with every chain end capped: a dimer of two one-descriptor fragments
+    (target below the second fragment's mass: the run succeeds with no descriptor left), initiator / monomer /
+    terminator (capped when a terminator is drawn: success if the target was reached, IndexError = outside the
+    domain otherwise), a star core whose arms are all capped by the time the target is reached"""
+    kind = rng.randrange(4)
+    caps = ['OC', 'O', 'N', 'CC', 'C(F)C', 'Cl', 'C(=O)OC', 'CO']
+    if kind == 0:
+        a, b = rng.sample(caps, 2)
+        d1, d2 = rng.choice([('>', '<'), ('<', '>'), ('$', '$'), ('$A', '$B')])
+        frags = '{#ET=[%s]%s,#OME=[%s]%s}' % (d1, a, d2, b)
+        target, start = rng.choice([1, 5, 10, 14]), rng.choice([None, 'ET', 'OME'])
+    elif kind == 1:
+        frags = '{#I=%s[>],#M=[<]%s[>],#T=[<]%s}' % (rng.choice(['CC', 'C', 'OC']), rng.choice(['CC', 'CC(C)', 'CO']),
+                                                      rng.choice(caps))
+        target, start = rng.choice([20, 40, 60, 90]), 'I'
+    elif kind == 2:
+        n = rng.choice([2, 3, 4])
+        core = {2: 'C([>])[>]', 3: 'C([>])([>])[>]', 4: 'C([>])([>])([>])[>]'}[n]
+        frags = '{#X=%s,#CAP=[<]%s}' % (core, rng.choice(['OC', 'CC', 'CO']))
+        # the caps weigh about 29..31: the target falls between n-1 and n caps (success, all arms capped) or above
+        target, start = rng.choice([29 * (n - 1) + 10, 29 * (n - 1) + 10, 31 * n + 20]), 'X'
+    else:
+        frags = '{#A=[$]CC[$],#E=[$]%s}' % rng.choice(caps)
+        target, start = rng.choice([20, 50, 80]), rng.choice([None, 'A', 'E'])
+    names = re.findall(r'#(\w+)=', frags)
+    masses = None if rng.random() < 0.7 else {nm: rng.choice([15, 29, 31, 44.5]) for nm in names}
+    return {'frags': frags, 'aa': True, 'poly': {}, 'fragreact': {}, 'term': [], 'masses': masses,
+            'seed': rng.randint(0, 10 ** 6), 'target': target, 'start': start,
+            'ctor': rng.choice(['explicit', 'default', 'fromstr'])}
+
+
 def rand_case(rng, mode=None):
+    if mode is None and rng.random() < 0.07:
+        return capped_case(rng)
     aa = rng.random() < 0.55
     nfr = rng.choice([1, 2, 2, 3, 3, 4])
     names = rng.sample(['A', 'B', 'PEO', 'D', 'OH', 'X'], nfr)
@@ -439,6 +477,13 @@ def rand_case(rng, mode=None):
 
 
 CORPUS = [
+    # every chain end capped when the target is reached (the run succeeds with no descriptor left)
+    {'frags': '{#ET=[>]CC,#OME=[<]OC}', 'aa': True, 'poly': {}, 'fragreact': {}, 'term': [], 'masses': None,
+     'seed': 1, 'target': 10, 'start': 'ET', 'ctor': 'explicit'},
+    {'frags': '{#X=C([>])([>])[>],#CAP=[<]OC}', 'aa': True, 'poly': {}, 'fragreact': {}, 'term': [], 'masses': None,
+     'seed': 2, 'target': 70, 'start': 'X', 'ctor': 'explicit'},
+    {'frags': '{#I=CC[>],#M=[<]CC[>],#T=[<]O}', 'aa': True, 'poly': {}, 'fragreact': {}, 'term': [], 'masses': None,
+     'seed': 3, 'target': 40, 'start': 'I', 'ctor': 'explicit'},
     # a larger fragment attached while the molecule is still smaller (one-atom start)
     {'frags': '{#A=[$]O[$],#B=[$]CC(C)(C)C[$]}', 'aa': True, 'poly': {}, 'fragreact': {}, 'term': [], 'masses': None,
      'seed': 1, 'target': 150, 'start': 'A', 'ctor': 'explicit'},
